@@ -230,7 +230,7 @@ Section WithFreq.
         | [] => match iri with Some i => inl i | None => inr SEValue end
         | s0 :: _ =>
           match iri with
-          | None => inr SEAttr      (* self._iri_constraint is None: .n_occurences *)
+          | None => inl s0
           | Some i => if N.ltb (s_nocc s0) (s_nocc i) then inl i else inl s0
           end
         end
